@@ -16,6 +16,7 @@ PROPS["C02"] = {
 
 PROPS["C12"] = {
     "level": "model_checking",
+    "kani": [{"name": "k_disk_tag_round_trips"}],
     "harnesses": [
         {"name": "c12_search_strict_n%d" % n, "fn": "c12_search", "params": {"quick": {"n": n, "strict": 1}}, "covers": (["search.some-record-at-or-after"] if n else [])} for n in range(0, 7)
     ] + [
@@ -140,6 +141,7 @@ PROPS["C08"] = {
 
 PROPS["C06"] = {
     "level": "model_checking",
+    "kani": [{"name": "k_disk_tag_round_trips"}],
     "harnesses": [
         {"name": "c06_history", "params": {"quick": {"ops": 4, "prefix": 0}, "thorough": {"ops": 5, "prefix": 0}}, "covers": ["snapshot.done"], "budget_s": {"quick": 900, "thorough": 7200}},
         {"name": "c06_history_persisted", "fn": "c06_history", "params": {"quick": {"ops": 4, "prefix": 1}}, "covers": ["snapshot.done"], "budget_s": {"quick": 900, "thorough": 7200}},
